@@ -44,7 +44,14 @@ def scan_c20(repo):
         hits = [src.line_of(m.start()) for m in re.finditer(pat, code)]
         if hits:
             out.append(_fail('C20', 'scan.no_shared_mutable_state', what + ' in the arena code', ['src/lib.rs:%d' % h for h in hits]))
-    return out, {'statics': [n for _, n in statics]}
+    # an idle arena can be moved to another thread for EVERY minimum alignment, and is never shared: the marker impls (whole text incl. tests excluded)
+    send = re.findall(r'(?m)^unsafe impl\s*(<[^>]*>)?\s*Send for Bump\s*(<[^>]*>)?', code)
+    ok_send = any('const MIN_ALIGN: usize' in (g or '') and 'MIN_ALIGN' in (a or '') for g, a in send)
+    if not ok_send:
+        out.append(_fail('C20', 'scan.send_for_every_min_align', '`unsafe impl<const MIN_ALIGN: usize> Send for Bump<MIN_ALIGN>` not found: some Bump<N> cannot be moved to another thread', [str(send)]))
+    if re.search(r'(?m)^unsafe impl[^\n]*\bSync for Bump\b', code):
+        out.append(_fail('C20', 'scan.bump_is_not_sync', 'Bump implements Sync: one arena could be used from two threads at once', []))
+    return out, {'statics': [n for _, n in statics], 'send_impls': [' '.join(x) for x in send]}
 
 
 def scan_c03(repo):
